@@ -2,13 +2,17 @@
 Driver mode c17 (see harness/c17.cpp for the case format).
 Per graph case:
   * SPECFAIL  if a C++ matrix (johnsons, dijkstra, floyd_warshall) is rejected by the verified
-              checker `checkApsp` (message `alg=<name> reason=… `), if the three disagree, or if
-              readLinearD()/readLinearG() differ from idealLength × certified distances / the
-              documented classes 0/1/2;
-  * DIVERGE   if the Lean models (`floydWarshall`, `johnsons selMin`) differ from the C++ matrices,
-              or a pairing-heap operation sequence returns keys in another order than a multiset.
+              checker `checkApsp` (sound and complete: Props.C17.checkApsp_iff; message
+              `alg=<name> [graphclass=…] reason=…`), if the three disagree, or if
+              readLinearD()/readLinearG() differ from idealLength × certified distances of the
+              length-corrected graph (1e-9 relative) / the documented classes 0/1/2;
+  * DIVERGE   if the Lean models (`floydWarshall` = the code in /repo now, `johnsons selMin`)
+              differ from the C++ matrices (exact equality; floyd_warshall only for n ≤ 64).
 johnsons / dijkstra / layout are examined before floyd_warshall so that a floyd_warshall failure
 never hides a failure of the others in the same case.
+Per heap case (tag heap-ops): DIVERGE if an extraction of the real PairingHeap<T> is not a minimum
+of the multiset specification, or differs (key or identity, i.e. tie-breaking) from the tree model
+`Model.PairingHeap`.
 -/
 import Driver.Proto
 import AdaptaVerif.Model.ShortestPaths
